@@ -266,10 +266,30 @@ def uri_gate(ctx, at, cfg):
             "the value whose scheme is tested is no longer the unescaped, control/space-stripped, lower-cased attribute value",
             wrong=[(norm_wrong is not None, norm_wrong)])
     parse = [s for s in ast.walk(loop) if isinstance(s, ast.Assign) and norm(s.value) == "urlparse.urlparse(val_unescaped)"]
-    r.check("R9.3", len(parse) == 1, "parses-normalised-value", "%s:%d" % (REL, loop.lineno), "the scheme is not parsed from the normalised value")
+    # ... or in a helper of the filter that is handed the normalised value and parses its parameter
+    via_helper = False
+    for c_ in ast.walk(loop):
+        if isinstance(c_, ast.Call) and isinstance(c_.func, ast.Attribute) and norm(c_.func.value) == "self" and [norm(a_) for a_ in c_.args] == ["val_unescaped"]:
+            h_ = at.cls.find_method(c_.func.attr) if at.cls is not None else None
+            if h_ is not None and len(h_.params()) == 2 and any(
+                    isinstance(x_, ast.Call) and norm(x_.func) == "urlparse.urlparse" and [norm(a_) for a_ in x_.args] == [h_.params()[1]] for x_ in ast.walk(h_.node)):
+                via_helper = True
+    r.idiom("R9.3", len(parse) == 1 or via_helper, "parses-normalised-value", "%s:%d" % (REL, loop.lineno), "where the scheme is parsed was not recognised",
+            wrong=[(any(isinstance(x_, ast.Call) and norm(x_.func) == "urlparse.urlparse" and x_.args and norm(x_.args[0]) not in ("val_unescaped",)
+                        for x_ in ast.walk(loop)), "the scheme is not parsed from the normalised value")])
     tries = [s for s in loop.body if isinstance(s, ast.Try)]
     exc_ok = len(tries) == 1 and any("del attrs[%s]" % attr == norm(x) for h in tries[0].handlers for x in h.body)
-    r.check("R9.3", exc_ok, "unparsable-removed", "%s:%d" % (REL, loop.lineno), "an unparsable URL is not removed")
+    # in the helper form: the handler of the helper's try returns False and the caller deletes on a false result
+    if via_helper and not exc_ok:
+        for c_ in ast.walk(loop):
+            if isinstance(c_, ast.Call) and isinstance(c_.func, ast.Attribute) and norm(c_.func.value) == "self" and at.cls is not None:
+                h_ = at.cls.find_method(c_.func.attr)
+                if h_ is not None and any(isinstance(t_, ast.Try) and any(isinstance(x_, ast.Return) and norm(x_.value) == "False" for hh in t_.handlers for x_ in hh.body)
+                                          for t_ in ast.walk(h_.node)) and \
+                        any(isinstance(i_, ast.If) and norm(i_.test) == "not " + norm(c_) and any(norm(x_) == "del attrs[%s]" % attr for x_ in i_.body) for i_ in ast.walk(loop)):
+                    exc_ok = True
+    r.idiom("R9.3", exc_ok, "unparsable-removed", "%s:%d" % (REL, loop.lineno), "what happens to an unparsable URL was not recognised",
+            wrong=[(len(tries) == 1 and not exc_ok, "an unparsable URL is not removed")])
     # the content-type pattern is anchored at both ends (otherwise a permitted type anywhere in the path would do)
     import re._parser as sp2
     pat = None
